@@ -25,7 +25,7 @@ T_QUICK, T_THOROUGH = 70, 1500
 FLOORS = {"hybrid_roundtrips": 4000, "json_roundtrips": 4000, "json_text_roundtrips": 1500,
           "fields_compared": 15000, "renamed_fields_compared": 3000, "nested_renamed_compared": 800,
           "fields_at_default": 2500, "elision_asserted": 2000, "omitted_field_took_default": 1500,
-          "empty_dynamic_arrays": 300, "ref_fields_nonnull": 300, "isolation_writes": 2000, "subclass_roundtrips": 400,
+          "empty_dynamic_arrays": 300, "ref_fields_nonnull": 300, "isolation_writes": 2000, "subclass_roundtrips": 400, "json_types_with_readonly_fields": 300,
           "seen:json:st": 500, "seen:json:ar": 500, "seen:json:str": 300}
 RULE = ("A: generated hybrid class families (1-3 levels; scalars, strings, numeric arrays static/dynamic 1-2 D, nested "
         "hybrids, references to hybrids, renamed fields, default / default_factory) with values deliberately equal to "
@@ -73,6 +73,10 @@ def value_with_defaults(spec, vg, rng, p_default, marks, path=""):
             marks.append(path + xn)
         elif kind == "sc":
             mv[xn] = vg.scalar(sub)
+            pool = [implicit_default(k2, s2, d2) for _x, _p, k2, s2, d2 in spec["fields"] if k2 == "sc"]
+            if pool and rng.random() < 0.3:
+                # the value of this field coincides with the default of ANOTHER field of the class
+                mv[xn] = DT[sub].type(rng.choice(pool))
         elif kind == "str":
             mv[xn] = "" if rng.random() < 0.15 else vg.string()
         else:
@@ -316,7 +320,7 @@ def _np_default(o):
 
 
 def run_json(w, rng):
-    c = new_case(w, rng, roots=("st", "ar"), tg_kw=dict(refs=False, max_nd=1), depth=rng.choice([1, 2, 2, 3]))
+    c = new_case(w, rng, roots=("st", "ar"), tg_kw=dict(refs=False, max_nd=1, readonly=0.15), depth=rng.choice([1, 2, 2, 3]), decoy=0.0)
     info = c.info
     seen = set()
 
@@ -374,6 +378,8 @@ def run_json(w, rng):
         cm = compare(c.t, c.mv, x)
         for p, kind, detail, sig in cm.errs[:1]:
             viol(f"original-changed:{kind}|{sig}", f"{p}: {detail}")
+        if any(n.get("ro") for n in walk(c.t)):
+            w.count("json_types_with_readonly_fields")
         for k in kinds_in(c.t):
             w.seen("json:" + ("ar" if k.startswith("ar") else k.split(":")[0]))
         w.case(["json", shape_sig(c.t)], sample=dict(info, json=repr(j)[:300]) if rng.random() < 0.003 else None,
